@@ -369,6 +369,28 @@ def run(chk):
         chk.instance(r_next, "reset:" + mem, sample=dict(member=mem, reset=got))
         if got is None or (want != "*" and got.replace("std::", "") != want):
             chk.violation(r_next, "reset:" + mem, "per-step member %s is not reset when the next report step is created (found %s, expected %s): the previous step's value leaks into the next" % (mem, got, want), ctor["file"], ctor["l"])
+    # whether a state has an end time is decided by later input (the last state has none): the constructor with an end time
+    # may therefore differ from the one without in nothing but m_end_time
+    ctor3 = [f for f in fx.fns if f["q"] == SS + "::ScheduleState" and [p["t"] for p in f["params"]] == ["const Opm::ScheduleState &", "const Opm::time_point &", "const Opm::time_point &"]]
+    if len(ctor3) != 1:
+        raise core.AnalysisBroken("ScheduleState(const ScheduleState&, const time_point&, const time_point&) not found")
+    ctor3 = ctor3[0]
+    deleg3 = [i for i in ctor3.get("inits", []) if i.get("delegating")]
+    body3 = stmt_list(ctor3["body"])
+    only_end = []
+    for n in body3:
+        tgt = None
+        if n["k"] == "Bin" and n.get("asg") and strip(n["c"][0])["k"] == "Mem":
+            tgt = strip(n["c"][0])["n"]
+        elif n["k"] == "OpCall" and n.get("op") == "=" and len(n.get("a", [])) == 2 and strip(n["a"][0])["k"] == "Mem":
+            tgt = strip(n["a"][0])["n"]
+        only_end.append((tgt, n))
+    chk.instance(r_next, "end-time-only", sample=dict(delegates_to=show(deleg3[0]["init"])[:80] if deleg3 else None, body=[t for t, _ in only_end]))
+    if not deleg3 or "start_time" not in show(deleg3[0]["init"]):
+        chk.violation(r_next, "end-time-only:delegate", "ScheduleState(src, start, end) no longer delegates to ScheduleState(src, start): the two ways of creating the next step can diverge", ctor3["file"], ctor3["l"])
+    for tgt, n in only_end:
+        if tgt != "m_end_time":
+            chk.violation(r_next, "end-time-only:%d" % (n["l"] - ctor3["l"]), "ScheduleState(src, start, end) does `%s` besides setting m_end_time: the last report step of a schedule is built without an end time, so this makes state k depend on whether more input follows step k" % show(n)[:90], ctor3["file"], n["l"])
     cn = [f for f in fx.fn("Opm::Schedule::create_next") if len(f["params"]) == 2]
     if len(cn) != 1:
         raise core.AnalysisBroken("Schedule::create_next(start, end) not found")
